@@ -569,6 +569,29 @@ func coderFreeLong(r *Run) {
 			}
 		}
 	}
+	// ... one call that produces 16 MiB of output and more (helpers that
+	// pre-touch, pre-fault or stage big buffers start at such sizes)
+	{
+		kind := t.Draw(2, "huge-coder")
+		d := 1 + t.Draw(2, "huge-d")
+		p := 2 + t.Draw(2, "huge-p")
+		length := (8 << 20) + 16*t.Draw(2, "huge-odd")
+		g := []int{2, 3, 4, 8}[t.Draw(4, "huge-g")]
+		c := mk0(r, kind, d, p, g)
+		c1 := mk0(r, kind, d, p, 1)
+		data := genShards(r, d, length)
+		want := c1.GenerateParity(data)
+		var got [][]byte
+		vs, pan := r.coderOp("generate-free-huge", SchedSpec{Mode: sched.Record}, func() { got = c.GenerateParity(data) })
+		r.reportSched("GenerateParity (free-running, 16 MiB+ of output)", vs, pan)
+		for i := range want {
+			if i >= len(got) || !bytes.Equal(want[i], got[i]) {
+				r.Violate("bytes-differ-from-single", "free-running GenerateParity(kind=%d d=%d p=%d len=%d g=%d): parity shard %d differs from the single-goroutine result at byte %d", kind, d, p, length, g, i, firstDiff(want[i], got[i]))
+				break
+			}
+		}
+		r.Probe("output>=16MiB")
+	}
 	// ... and reconstructions of more than 64 data shards at once with
 	// short shards (the inversion of a large matrix is the heavy part)
 	for it := 0; it < 6; it++ {
